@@ -146,16 +146,16 @@ void igris::vtermxx::newdata(int16_t input_c)
             {
                 char buf[16];
 
-                if (rl.lastsize())
+                if (echo)
                 {
-                    if (echo)
+                    if (rl.lastsize())
                     {
                         ret = vt100_left(buf, rl.lastsize());
 
                         write_callback(buf, ret);
-
-                        write_callback(VT100_ERASE_LINE_AFTER_CURSOR, 3);
                     }
+
+                    write_callback(VT100_ERASE_LINE_AFTER_CURSOR, 3);
                 }
 
                 if (rl.line().data())
